@@ -1,6 +1,7 @@
 package main
 
 import (
+	"sort"
 	"go/token"
 	"go/types"
 	"strings"
@@ -33,6 +34,7 @@ func init() {
 }
 
 func runC17(c *Ctx) {
+	evictionFieldsRule(c, "writeback-request-fields")
 	p := c.P
 	dom := []int{0, 1, 2}
 	norm := func(s string) string { return strings.ReplaceAll(strings.ReplaceAll(s, "&", ""), " ", "") }
@@ -662,4 +664,97 @@ func idempotentStallRule(c *Ctx, rule string, pred func(string) bool, floor int)
 			"the stage stalls (returns without progress, to be retried next tick) when its output cannot accept, but "+why+"each retry repeats that effect (a reader count driven negative, an item taken twice, …)")
 	}
 	c.Check(n >= floor, rule, "instances", 0, "stall tests found ("+itoa(n)+")", "only "+itoa(n)+" stall tests found (expected at least "+itoa(floor)+")")
+}
+
+// evictionFieldsRule: the fields of a write-back cache transaction that
+// writeBufferStage.write copies into the outgoing WriteReq form groups that are
+// produced together; a producer that sets the address of a write-back but not,
+// say, its dirty mask makes the write-back overwrite bytes the cache never wrote.
+func evictionFieldsRule(c *Ctx, rule string) {
+	p := c.P
+	rel := "mem/cache/writeback"
+	wf := c.fn(rule, rel, "writeBufferStage", "write")
+	if wf == nil {
+		return
+	}
+	w := p.SSAFunc(wf)
+	// consumer: transaction fields stored into the WriteReq
+	consumed := map[string]bool{}
+	for _, b := range w.Blocks {
+		for _, in := range b.Instrs {
+			st, ok := in.(*ssa.Store)
+			if !ok {
+				continue
+			}
+			fo := FieldOf(st.Addr)
+			if fo == nil || fo.Pkg() == nil || !strings.HasSuffix(fo.Pkg().Path(), "/memprotocol") && !strings.HasSuffix(fo.Pkg().Path(), "/messaging") {
+				continue
+			}
+			if u, isU := stripConv(st.Val).(*ssa.UnOp); isU {
+				if tf := FieldOf(u.X); tf != nil && tf.Pkg() != nil && tf.Pkg().Path() == pkgPath(rel) {
+					consumed[tf.Name()] = true
+				}
+			}
+		}
+	}
+	producers := map[string]map[string]bool{}
+	for _, fn := range p.SrcFuncs(func(pp string) bool { return pp == pkgPath(rel) }) {
+		if origin(fn) == origin(w) {
+			continue
+		}
+		for _, b := range fn.Blocks {
+			for _, in := range b.Instrs {
+				st, ok := in.(*ssa.Store)
+				if !ok {
+					continue
+				}
+				fo := FieldOf(st.Addr)
+				if fo == nil || !consumed[fo.Name()] || fo.Pkg() == nil || fo.Pkg().Path() != pkgPath(rel) {
+					continue
+				}
+				if cst, isC := st.Val.(*ssa.Const); isC && (cst.Value == nil || cst.Value.String() == "0" || cst.Value.String() == "false") {
+					continue // clearing
+				}
+				if producers[fo.Name()] == nil {
+					producers[fo.Name()] = map[string]bool{}
+				}
+				producers[fo.Name()][SSAFuncKey(fn)] = true
+			}
+		}
+	}
+	var names []string
+	for n := range producers {
+		names = append(names, n)
+	}
+	sort.Strings(names)
+	n := 0
+	for i, a := range names {
+		for _, b := range names[i+1:] {
+			shared := false
+			for f := range producers[a] {
+				if producers[b][f] {
+					shared = true
+				}
+			}
+			if !shared {
+				continue
+			}
+			n++
+			var missing []string
+			for f := range producers[a] {
+				if !producers[b][f] {
+					missing = append(missing, f+" sets "+a+" but not "+b)
+				}
+			}
+			for f := range producers[b] {
+				if !producers[a][f] {
+					missing = append(missing, f+" sets "+b+" but not "+a)
+				}
+			}
+			sort.Strings(missing)
+			c.Check(len(missing) == 0, rule, rel+":"+a+"+"+b, p.Decl(wf).Pos(), "produced together wherever either is produced",
+				"the write-back request is built from transaction fields "+a+" and "+b+", which are normally filled in together, but "+strings.Join(missing, "; ")+": a write-back issued from such a transaction carries a stale or empty "+b+"/"+a+" (e.g. no dirty mask, so the whole line overwrites bytes a sibling cache wrote back)")
+		}
+	}
+	c.Check(len(consumed) >= 3 && n >= 1, rule, "instances", 0, "consumed fields and producer groups found", "the write-back request's source fields were not recognised")
 }
